@@ -88,7 +88,7 @@ ASSUMPTIONS = [
 REQUIRED_CLASSES = [
     "grid:emitter-configurations", "shape:triangle", "shape:rectangle", "shape:convex", "shape:concave", "shape:straight-vertex",
     "order:rot0", "order:rot+", "order:input-cw", "order:input-ccw", "order:stored-reversed",
-    "container:tuples", "container:ndarray", "container:Point2D",
+    "container:tuples", "container:ndarray", "container:ndarray:caller-array-reused", "container:Point2D",
     "coords:exact", "coords:inexact", "coords:on-axis",
     "u:0", "u:2^-53", "u:mid", "u:boundary", "u:boundary-ulp", "u:boundary+ulp", "u:below-boundary", "u:above-boundary",
     "u:1-2^-53", "u:1-2^-52", "u:below-top", "u:in-top-band",
@@ -528,11 +528,23 @@ def _body(case, skip, send, progress):
             tag = shape.split("+")[0]   # signature class of the polygon: triangle / rectangle / convex / concave
             progress("AxisymmetricVoxel:construct-or-read:process-death:%s" % tag, desc, "a voxel with area %r" % Aex)
             try:
-                voxel = vx.AxisymmetricVoxel(_container(q, which))
+                given = _container(q, which)
+                voxel = vx.AxisymmetricVoxel(given)
                 area = voxel.cross_sectional_area
                 cen = voxel.cross_section_centroid
                 vol = voxel.volume
                 stored = [(p.x, p.y) for p in voxel.vertices]
+                if which == 1:
+                    # the voxel is the polygon it was constructed from: the caller's array is left as it was, and what the caller does
+                    # with its own array afterwards (a template cell shifted in place for the next voxel) does not move the voxel
+                    if given.tolist() != [list(p) for p in q]:
+                        V("AxisymmetricVoxel:constructor-modifies-the-vertex-array-it-was-given:%s" % ("input-" + orient), desc, [list(p) for p in q], given.tolist())
+                    given[:, 0] += 0.5
+                    given[:, 1] *= 3.0
+                    a2, c2, v2 = voxel.cross_sectional_area, voxel.cross_section_centroid, voxel.volume
+                    if (a2, c2.x, c2.y, v2) != (area, cen.x, cen.y, vol):
+                        V("AxisymmetricVoxel:voxel-follows-later-changes-of-the-callers-array", desc, [area, cen.x, cen.y, vol], [a2, c2.x, c2.y, v2])
+                    classes["container:ndarray:caller-array-reused"] += 1
             except Exception as e:  # noqa
                 V("AxisymmetricVoxel:construct-or-read:raises:%s:%s" % (type(e).__name__, tag), desc + ": " + str(e)[:200],
                   "a voxel with area %r" % Aex, type(e).__name__)
